@@ -283,6 +283,7 @@ impl Cfg {
             }
             queue.extend(prev.prevs().clone().into_iter());
         }
+        ranges.sort_by_key(|reg| reg.range());
         ranges
     }
 
@@ -320,13 +321,15 @@ impl Cfg {
                 }
                 if let Some(reg) = it {
                     ranges.push(reg);
-                    break;
                 }
-                break;
+                // this path ends at its first use; the other paths are still searched, so
+                // that the result does not depend on the order in which they are visited
+                continue;
             }
 
             queue.extend(next.nexts().clone().into_iter());
         }
+        ranges.sort_by_key(|reg| reg.range());
         ranges
     }
 }
